@@ -1,6 +1,6 @@
 (** Statement pins for C13: the property theorems must have exactly these
     types, so they cannot be weakened silently. *)
-From RsM Require Import Lib.MachInt Model.Subs Model.SubsSpec Proofs.SubsInv Proofs.SubsTiming Proofs.SubsSlot Props.C13.
+From RsM Require Import Lib.MachInt Model.Subs Model.SubsSpec Proofs.SubsInv Proofs.SubsTiming Proofs.SubsSlot Model.C13Events Proofs.C13EventsFacts Props.C13.
 Open Scope N_scope.
 
 Check (C13_no_lost_change : forall ops,
@@ -66,3 +66,12 @@ Check (C13_cancelled_report_is_dropped : forall ops r res,
   subs st' = subs st /\ reporting st' = None /\ cancelled st' = false /\ ~ In (s_id r) (all_ids st')).
 Check (C13_slot_before_fix :
   ids_in_table (run_gen true false init slot_witness) = [1] /\ ids_in_table (run init slot_witness) = [2]).
+Check (C13_event_delivered_iff_retained : forall cap l seen upto n,
+  N.of_nat (length l) + 3 < two64 ->
+  let q := push_all cap evq_init l in
+  In n (report_events q seen upto) <-> (retained q n = true /\ seen < n /\ n <= upto)).
+Check (C13_event_delivered_unless_evicted : forall cap l seen n,
+  N.of_nat (length l) + 3 < two64 ->
+  let q := push_all cap evq_init l in
+  seen < n -> n < q_next q -> evicted_undelivered q seen n = false ->
+  In n (report_events q seen (q_next q - 1))).
